@@ -69,30 +69,30 @@ Definition add_elf_gen (fx : bool) (m : mode) (bs name payload : list byte) : ou
   shnum <- read_field fx m 2 bs 60 ;;
   shstrndx <- read_field fx m 2 bs 62 ;;
   tot <- uadd fx m two64 shoff (shnum * shentsize) ;;
-  if negb (lenN bs =? tot) then Err eother else
+  if negb (flen bs =? tot) then Err eother else
   (* split_off(section_header_table_offset) *)
-  if negb (shoff <=? lenN bs) then (if fx then Err eother else Panic (slit "split")) else
+  if negb (shoff <=? flen bs) then (if fx then Err eother else Panic (slit "split")) else
   let body := takeN shoff bs in
   let sht := dropN shoff bs in
   names_off <- read_field fx m 8 sht (shstrndx * shentsize + 24) ;;
   names_size <- read_field fx m 8 sht (shstrndx * shentsize + 32) ;;
   let ins := name ++ [zero] in
-  let k := lenN ins in
+  let k := flen ins in
   pos <- uadd fx m two64 names_off names_size ;;
   body1 <- splice_ins fx body pos ins ;;
   names_size' <- uadd fx m two64 names_size k ;;
   sht1 <- write_field fx m 8 sht (shstrndx * shentsize + 32) names_size' ;;
   sht2 <- bump_offsets fx m sht1 shentsize k (shstrndx + 1) (N.to_nat (shnum - (shstrndx + 1))) ;;
-  let new_off := lenN body1 in
+  let new_off := flen body1 in
   let body2 := body1 ++ payload in
   let hdr0 := zerosN shentsize in
   nsz32 <- ucast fx two32 names_size ;;
   hdr1 <- write_field fx m 4 hdr0 0 nsz32 ;;
   hdr2 <- write_field fx m 4 hdr1 4 2147483648 ;;
   hdr3 <- write_field fx m 8 hdr2 24 new_off ;;
-  hdr4 <- write_field fx m 8 hdr3 32 (lenN payload) ;;
+  hdr4 <- write_field fx m 8 hdr3 32 (flen payload) ;;
   let sht3 := sht2 ++ hdr4 in
-  let new_shoff := lenN body2 in
+  let new_shoff := flen body2 in
   let bs1 := body2 ++ sht3 in
   bs2 <- write_field fx m 8 bs1 40 new_shoff ;;
   n16 <- ucast fx two16 (shnum + 1) ;;
